@@ -474,6 +474,7 @@ func GenLimits(prop string, seed uint64, thorough bool) *Scenario {
 			// the application's connection listener takes its time: frames that arrive meanwhile are read by a
 			// reader that has been running since the transport was constructed - with the limit in force
 			sc.Reent = append(sc.Reent, ReentSpec{Event: "connection", Call: "sleep", Ms: g.pick(10, 40), Sess: "x1", Nth: 1})
+			x.EarlyWS = true
 		}
 		for i, n := 0, g.rng(1, 3); i < n; i++ {
 			sz := sizes[g.IntN(len(sizes))]
